@@ -847,6 +847,8 @@ type clashShape struct {
 	nout int
 }
 
+// Every shape below stays well-typed when a name is shadowed, so that a generator that lets a
+// name clash is seen by what the closure does; shapes whose clash cannot compile are in namesPackage.
 var clashShapes = []clashShape{
 	// the supplied error and a parameter called err (err_, both) of type error
 	{[]clashParam{{"err", "error"}}, 0},
@@ -857,27 +859,23 @@ var clashShapes = []clashShape{
 	{[]clashParam{{"err_", "error"}, {"err", "error"}, {"err__", "error"}}, 0},
 	{[]clashParam{{"a0", "any"}, {"err", "error"}}, 1},
 	{[]clashParam{{"err", "error"}, {"a1", "any"}}, 2},
-	{[]clashParam{{"e", "error"}, {"err", "any"}}, 1},
 	// the supplied function and a parameter called f that can be called on the same arguments
 	{[]clashParam{{"f", "self"}}, 0},
 	{[]clashParam{{"f", "self"}}, 1},
 	{[]clashParam{{"f", "self"}, {"f_", "self"}}, 1},
 	{[]clashParam{{"a0", "any"}, {"f", "self"}}, 2},
 	{[]clashParam{{"f_", "self"}, {"a1", "any"}}, 1},
-	{[]clashParam{{"f", "any"}}, 1},
 	// success and out<i>
 	{[]clashParam{{"success", "bool"}}, 0},
 	{[]clashParam{{"success", "bool"}}, 1},
 	{[]clashParam{{"success", "bool"}, {"success_", "bool"}}, 2},
-	{[]clashParam{{"success", "any"}, {"ok", "bool"}}, 1},
 	{[]clashParam{{"out0", "out0"}}, 1},
 	{[]clashParam{{"out0", "out0"}, {"out1", "out1"}}, 3},
-	{[]clashParam{{"out1", "out0"}, {"out0", "out1"}, {"out0_", "any"}}, 2},
-	{[]clashParam{{"out0", "any"}, {"out2", "any"}}, 3},
+	{[]clashParam{{"out1", "out1"}, {"out0", "out0"}, {"out0_", "out0"}}, 2},
+	{[]clashParam{{"out0", "out0"}, {"out2", "out2"}}, 3},
 	// everything at once
 	{[]clashParam{{"err", "error"}, {"f", "self"}, {"success", "bool"}, {"out0", "out0"}}, 2},
 	{[]clashParam{{"success", "bool"}, {"err", "error"}, {"err_", "error"}, {"f", "self"}}, 1},
-	{[]clashParam{{"f", "any"}, {"err", "any"}, {"success", "any"}}, 1},
 }
 
 func (g *gen) toerrorClash(id int, sh clashShape) {
@@ -1217,6 +1215,9 @@ func Run(cfg hx.Config) (*hx.Meta, error) {
 	if err != nil {
 		return nil, err
 	}
+	if err := namesPackage(cfg, meta); err != nil {
+		return nil, err
+	}
 	lits := extractZeros(string(genSrc), g.zeroSlots, meta)
 	all := append(zeroObs, lits...)
 	all = append(all, translateCompose(string(genSrc), g.composeAr, meta)...)
@@ -1369,6 +1370,61 @@ func zeroPackage(cfg hx.Config, meta *hx.Meta) ([]string, error) {
 		meta.Count("zero-package/kind=" + k)
 	}
 	return lines, nil
+}
+
+// ---- parameters called err, f, success, out<i> of types under which a clash cannot compile:
+// generate + vet only ----
+const namesSrc = `package main
+
+func n0(e error, f func(e2 error, err string) (int, bool)) func(error, string) (int, error) {
+	return deriveToErrorN0(e, f)
+}
+func n1(e error, f func(f int) (int, bool)) func(int) (int, error) {
+	return deriveToErrorN1(e, f)
+}
+func n2(e error, f func(success string, ok bool) (int, bool)) func(string, bool) (int, error) {
+	return deriveToErrorN2(e, f)
+}
+func n3(e error, f func(out0 string, out2 int) (a, b, c int, ok bool)) func(string, int) (int, int, int, error) {
+	return deriveToErrorN3(e, f)
+}
+func n4(e error, f func(out1 int, out0 string, out0_ bool) (int, string, bool)) func(int, string, bool) (int, string, error) {
+	return deriveToErrorN4(e, f)
+}
+func n5(e error, f func(f int, err string, success float64, f_ bool) (int, bool)) func(int, string, float64, bool) (int, error) {
+	return deriveToErrorN5(e, f)
+}
+func n6(e error, f func(err_ error, err int) bool) func(error, int) error {
+	return deriveToErrorN6(e, f)
+}
+
+func main() {}
+`
+
+func namesPackage(cfg hx.Config, meta *hx.Meta) error {
+	dir := filepath.Join(cfg.Work, "c16names")
+	if err := hx.Module(dir); err != nil {
+		return err
+	}
+	if err := hx.WriteFiles(dir, map[string]string{"n.go": namesSrc}); err != nil {
+		return err
+	}
+	meta.Packages++
+	meta.GoderiveRuns++
+	meta.Count("toerror/names-package")
+	gr := hx.Goderive(cfg.Goderive, dir, ".")
+	if gr.Exit != 0 {
+		meta.AddDirect(hx.Direct{Class: "c16-generate-failed", What: "goderive failed on the C16 parameter-names package",
+			Files: map[string]string{"n.go": namesSrc}, Cmd: "goderive .", Output: hx.Truncate(gr.Out, 4000)})
+		return nil
+	}
+	v := hx.GoVet(dir, "")
+	if v.Exit != 0 {
+		genSrc, _ := os.ReadFile(filepath.Join(dir, "derived.gen.go"))
+		meta.AddDirect(hx.Direct{Class: "c16-names-ill-typed", What: "deriveToError over parameters called err, f, success, out<i> does not type-check: " + firstLines(v.Out, 3),
+			Files: map[string]string{"n.go": namesSrc, "derived.gen.go": hx.Truncate(string(genSrc), 20000)}, Cmd: "goderive . && go vet .", Output: hx.Truncate(v.Out, 4000)})
+	}
+	return nil
 }
 
 // extractZeros finds, in every listed generated function, the first `if err.. != nil { return Z..., err }`
